@@ -700,7 +700,7 @@ pub fn run(sc: &Value) -> Vec<String> {
                 "drop" => {
                     resp = None;
                 }
-                "bytes" | "write_to" | "text_utf8_raw" | "text" | "text_utf8" | "text_with" | "text_reader" => {
+                "bytes" | "write_to" | "text_utf8_raw" | "text" | "text_utf8" | "text_with" | "text_reader" | "efs_bytes" | "split_bytes" => {
                     let Some(rp) = resp.take() else { continue };
                     emit(json!({"ev":"call","op":op,"buf":n}));
                     let label = gso(sc, "text_label").unwrap_or("utf-8").to_string();
@@ -709,6 +709,29 @@ pub fn run(sc: &Value) -> Vec<String> {
                     let res = catch_unwind(AssertUnwindSafe(|| -> Result<Vec<u8>, String> {
                         match op.as_str() {
                             "bytes" => rp.bytes().map_err(|e| err_kind(&e)),
+                            // error_for_status(): the response itself for 2xx, Err(StatusCode) otherwise
+                            "efs_bytes" => {
+                                let ok = rp.is_success();
+                                let st = rp.status().as_u16();
+                                match rp.error_for_status() {
+                                    Ok(r2) if ok => r2.bytes().map_err(|e| err_kind(&e)),
+                                    Ok(_) => Err("efs-accepted-non-success".into()),
+                                    Err(e) => match e.kind() {
+                                        attohttpc::ErrorKind::StatusCode(c) if c.as_u16() == st && !ok => Err("StatusCode".into()),
+                                        _ => Err(format!("efs-wrong-error:{}", err_kind(&e))),
+                                    },
+                                }
+                            }
+                            // split(): status, header fields and the body reader taken apart
+                            "split_bytes" => {
+                                let (st0, nh) = (rp.status(), rp.headers().len());
+                                let (st, hd, reader) = rp.split();
+                                if st != st0 || hd.len() != nh {
+                                    Err("split-changed-head".into())
+                                } else {
+                                    reader.bytes().map_err(|e| err_kind(&e))
+                                }
+                            }
                             "write_to" => {
                                 let mut w = SlowWriter(Vec::new(), if n == 0 { usize::MAX } else { n });
                                 rp.write_to(&mut w).map_err(|e| err_kind(&e)).map(|_| w.0)
@@ -757,7 +780,7 @@ pub fn run(sc: &Value) -> Vec<String> {
                     }));
                     match res {
                         Ok(Ok(got)) => {
-                            let is_text = !matches!(op.as_str(), "bytes" | "write_to" | "text_utf8_raw");
+                            let is_text = !matches!(op.as_str(), "bytes" | "write_to" | "text_utf8_raw" | "efs_bytes" | "split_bytes");
                             let l = if is_text {
                                 match &text_ref {
                                     Some(t) => lcp(&got, t.as_bytes()),
